@@ -41,6 +41,7 @@ def cases(tier, seed):
                    sched=rnd.choice(['uniform', 'user-ahead', 'stall']), align=rnd.random() < 0.35,
                    others=rnd.choice([0, 0, 1, 2]), fine=rnd.random() < 0.4,
                    pre_store=rnd.random() < 0.25, reuse=rnd.random() < 0.3,
+                   again=rnd.choice([None, None, None, 7.0, 20.0]),
                    seed=seed * 100003 + i)
 
 
@@ -180,6 +181,9 @@ def run_case(case):
             world.serve_peer(ADDR, lambda sock: peers.ScriptedAcceptor(
                 world.sim, sock, accept=accept, max_length=case['smax'], on_message=on_message))
         got = []
+        got2 = []
+        again = case.get('again') if (case['final'] == 'real' and variant != 'c_find'
+                                     and not case['delay'] and case['sched'] != 'stall') else None
         out = {}
         remote = {'aet': 'SRV', 'address': ADDR[0], 'port': ADDR[1]}
 
@@ -190,7 +194,7 @@ def run_case(case):
                         got.append((d, st))
                 else:
                     cli = world.make_ae(applicationentity.ClientAE, 'CLI', [ts], case['cmax'])
-                    cli.timeout = 300
+                    cli.timeout = 300 if not again else 4.0
                     cli.add_scu(sopclass.qr_find_scu).add_scu(sopclass.modality_work_list_scu)
                     if pre_store:
                         cli.add_scu(sopclass.storage_scu, [CT_STORE])
@@ -203,6 +207,12 @@ def run_case(case):
                             out['store_status'] = int(assoc.get_scu(CT_STORE)(inst, 5))
                         for d, st in assoc.get_scu(sop)(query, 7):
                             got.append((d, st))
+                        if again:
+                            # the association then sits idle for longer than the user's
+                            # time-out before the same query is made once more
+                            world.sim.sleep(again)
+                            for d, st in assoc.get_scu(sop)(query, 9):
+                                got2.append((d, st))
                 out['done'] = True
             except Exception as e:  # pylint: disable=broad-except
                 import traceback
@@ -301,9 +311,16 @@ def run_case(case):
                                                 [(_pn(d), '%04x' % s) for d, s in have]))
             if got and got[-1][1].is_pending:
                 v('iteration-ended-on-pending-status', repr(int(got[-1][1])))
+            if again:
+                have2 = [(enc(d, rc.IMPLICIT_LE) if d is not None else None, int(st))
+                         for d, st in got2]
+                if have2 != want:
+                    v('second-query-after-an-idle-pause-differs',
+                      'idle for %.0f s (user time-out 4 s); produced %d results, received %r' % (
+                          again, len(want), [(_pn(d), '%04x' % s) for d, s in have2]))
         if seen_queries and seen_queries[0] is not None:
             qwant = enc(query, rc.IMPLICIT_LE if case['final'] == 'real' else ts)
-            if seen_queries[0] != qwant or len(seen_queries) != 1:
+            if seen_queries[0] != qwant or len(seen_queries) != (2 if again else 1):
                 v('query-changed-on-the-way', 'handler saw %r (x%d), sent %r' % (
                     seen_queries[0][:40], len(seen_queries), qwant[:40]))
         elif 'exc' not in out:
